@@ -487,18 +487,22 @@ def sys_errors():
             return base + [['raise', 'ce']]
         if kind == 'raise_ce_after_sleep':
             return base + [['s', 2], ['raise', 'ce']]
+        if kind == 'raise_chain':           # exception with __cause__ and __context__ chains
+            return base + [['raise', 'chain']]
         return base + [['s', 2], ['raise', 'rt']]
-    for k1, k2, k3, sync2, child_kind, fw, par in itertools.product(kinds + ['raise_ce', 'raise_ce_after_sleep'], kinds + ['raise_ce'], ['ok', 'raise'], [False, True],
-                                                                    ['none', 'ok', 'raise', 'raise_ce'], [False, True], [False, True]):
+    for k1, k2, k3, sync2, child_kind, fw, par in itertools.product(kinds + ['raise_ce', 'raise_ce_after_sleep', 'raise_chain'], kinds + ['raise_ce', 'raise_chain'], ['ok', 'raise'], [False, True],
+                                                                    ['none', 'ok', 'raise', 'raise_ce', 'raise_chain'], [False, True], [False, True]):
         if sync2 and k2 == 'raise_after_sleep':
             continue
-        if child_kind == 'raise_ce' and k1 in ('retexc', 'raise_after_sleep'):
+        if child_kind in ('raise_ce', 'raise_chain') and k1 in ('retexc', 'raise_after_sleep', 'raise_ce_after_sleep'):
+            continue
+        if 'raise_chain' in (k1, k2, child_kind) and 'raise_ce' in (k1, k2, child_kind):
             continue
         extra1 = []
         if child_kind != 'none':
             extra1 = [['d', 'b2' if fw else 'b1', 'C'], ['a', 0]]
-        scripts = {'H1': {'R': ops(k1, extra1), 'L': []}, 'H2': {'R': ops(k2)}, 'H3': {'R': ops(k3), 'C': ops(child_kind if child_kind in ('raise', 'raise_ce') else 'ok'), 'L': []},
-                   'HB': {'R': ops(k3), 'C': ops(child_kind if child_kind in ('raise', 'raise_ce') else 'ok')}}
+        scripts = {'H1': {'R': ops(k1, extra1), 'L': []}, 'H2': {'R': ops(k2)}, 'H3': {'R': ops(k3), 'C': ops(child_kind if child_kind in ('raise', 'raise_ce', 'raise_chain') else 'ok'), 'L': []},
+                   'HB': {'R': ops(k3), 'C': ops(child_kind if child_kind in ('raise', 'raise_ce', 'raise_chain') else 'ok')}}
         handlers = [typed('b1', 'R', 'H1', hid='h1'), typed('b1', 'R', 'H2', 'sync' if sync2 else 'async', hid='h2'), wild('b1', 'H3', hid='h3'),
                     wild('b2', 'HB', hid='hb')]
         if fw:
@@ -681,17 +685,54 @@ def sys_timeout_stray():
     return out
 
 
+def sys_await_after_stop():
+    """C04 while a stopped bus is still around: the inline drain of an awaiting handler walks every live EventBus instance, including
+    buses that were stopped earlier (empty, shut-down queue); the await must still return the child complete"""
+    out = []
+    for used, order, child_bus, grand, pre in itertools.product([True, False], ['fwd', 'rev'], ['b1', 'b2'], [False, True], [0, 2]):
+        c_ops = ([['d', 'b1', 'G'], ['a', 0]] if grand else []) + [['y', 1]]
+        scripts = {'S1': {'R': [['d', child_bus, 'C'], ['a', 0], ['y', 1]], 'C': c_ops, 'G': [['s', 1]], 'L': []},
+                   'S2': {'C': c_ops, 'G': [], 'L': []}, 'SS': {'Z': []}}
+        handlers = [wild('b1', 'S1', hid='h1'), wild('b2', 'S2', hid='h2'), wild('bs', 'SS', hid='hs')]
+        d = ([['d', 'bs', 'Z'], ['a', 0]] if used else []) + [['stop', 'bs'], ['s', 150]]
+        d += [['d', 'b1', 'L']] * pre + [['d', 'b1', 'R'], ['a', (1 if used else 0) + pre], ['idle', 'b1', 2000], ['idle', 'b2', 2000]]
+        x = scn([bus('bs'), bus('b1'), bus('b2')], handlers, scripts, [d], horizon=6000, tag='await_after_stop')
+        x['busorder'] = order
+        out.append(x)
+    return out
+
+
+def sys_lock_wait():
+    """C05 / C06 when a run loop has to wait for the global lock longer than the timeout of the event it holds: an event with a short
+    event_timeout arrives on another bus while a handler (awaiting a slow child, or just slow itself) holds the lock; its handler must not
+    start before the lock is free"""
+    out = []
+    for awaiting, hold, tmo, at, nside, order in itertools.product([True, False], [8, 30], [1, 2, 5], [0, 1, 3], [1, 2], ['fwd', 'rev']):
+        r_ops = ([['d', 'b1', 'C'], ['a', 0]] if awaiting else [['s', hold]]) + [['y', 1]]
+        scripts = {'S1': {'R': r_ops, 'C': [['s', hold]]}, 'S2': {'S': [['s', 1]]}}
+        handlers = [wild('b1', 'S1', hid='h1'), wild('b2', 'S2', hid='h2')]
+        d1 = [['d', 'b1', 'R'], ['a', 0], ['idle', 'b1', 2000], ['idle', 'b2', 2000]]
+        d2 = [['s', at]] + [['d', 'b2', 'S']] * nside
+        x = scn([bus('b1'), bus('b2')], handlers, scripts, [d1, d2], events={'S': {'timeout': tmo}}, horizon=6000, tag='lock_wait')
+        x['busorder'] = order
+        out.append(x)
+    return out
+
+
 def gen_wal(seed):
     rng = random.Random(seed)
     nb = rng.choice([1, 2, 2, 3])
     names = ['b%d' % (i + 1) for i in range(nb)]
     faults = []
     buses = []
+    heavy = rng.random() < 0.25
     for n in names:
         fl = []
-        if rng.random() < 0.35:
+        if heavy:      # many transient faults with successful writes in between and afterwards
+            fl = sorted({'%s:%d' % (rng.choice(['open', 'write']), k) for k in rng.sample(range(1, 9), rng.randint(3, 6))})
+        elif rng.random() < 0.35:
             fl = ['%s:%d' % (rng.choice(['open', 'write']), rng.randint(1, 4)) for _ in range(rng.randint(1, 2))]
-        buses.append(bus(n, wal=rng.random() < 0.85, wal_faults=fl))
+        buses.append(bus(n, wal=heavy or rng.random() < 0.85, wal_faults=fl))
     handlers, scripts = [], {}
     for b in names:
         sc = {'W1': [], 'W2': [], 'W3': []}
@@ -721,7 +762,7 @@ def gen_wal(seed):
         {'n': 7, 's': 'dt', 'when': '2031-12-31T23:59:59.123456+00:00'},
     ]
     d = []
-    for i in range(rng.randint(1, 4)):
+    for i in range(rng.randint(6, 10) if heavy else rng.randint(1, 4)):
         if rng.random() < 0.3:
             d.append(['y', rng.randint(1, 3)])
         p = dict(rng.choice(payloads))
@@ -831,6 +872,8 @@ def gen_timeout_par(seed):
 
 
 FAMILIES = {
+    'lock_wait': ('sys', sys_lock_wait),
+    'await_after_stop': ('sys', sys_await_after_stop),
     'timeout_stray': ('sys', sys_timeout_stray),
     'late_on': ('sys', sys_late_on),
     'stop_in_handler': ('sys', sys_stop_in_handler),
